@@ -184,7 +184,7 @@ package stats
 //@   model real
 //@   requires 0 <= q && q <= 1
 //@   loop 1 (count) invariant total == under + over + usum(counts, _k) && total >= under + over && usum(counts, _k) >= 0
-//@   loop 2 (bin) invariant (forall j in 1..K+1 :: a[j] == acoef(t, j)) && goal >= 1 && goal + usum(counts, bin) == int(float64(total)*q) - under && goal + usum(counts, bin) <= usum(counts, len(counts)) && usum(counts, bin) >= 0 && 0 <= bin
+//@   loop 2 (bin) invariant goal >= 1 && goal + usum(counts, bin) == int(float64(total)*q) - under && goal + usum(counts, bin) <= usum(counts, len(counts)) && usum(counts, bin) >= 0 && 0 <= bin
 //@   check @ret1 [nan-under-over] int(float64(total)*q) <= under || int(float64(total)*q) > total - over
 //@   check @ret2 [rank-in-bin] usum(counts, bin) < int(float64(total)*q) - under && int(float64(total)*q) - under <= usum(counts, bin+1)
 //@   check @ret2 [interpolated] result0 == hist.BinToValue(bin + (int(float64(total)*q) - under - usum(counts, bin)) / float64(counts[bin]))
@@ -228,7 +228,7 @@ package stats
 //@   ensures [weighted-max-attained] !isnil(s.Weights) && (exists k in 0..len(s.Xs) :: s.Weights[k] != 0) ==> (exists k in 0..len(s.Xs) :: s.Weights[k] != 0 && max == s.Xs[k])
 //@   loop 1 (i) invariant isnan(min) && isnan(max) && (forall j in 0..i :: s.Weights[j] == 0)
 //@   loop 2 (i) invariant isnan(max) && (forall j in len(s.Weights)-i..len(s.Weights) :: s.Weights[j] == 0)
-//@   loop 3 (i) invariant (forall j in 1..K+1 :: a[j] == acoef(t, j)) && (forall j in 0..i :: s.Weights[j] != 0 ==> min <= s.Xs[j] && s.Xs[j] <= max) && (min == inf || (exists j in 0..len(s.Xs) :: s.Weights[j] != 0 && min == s.Xs[j])) && (max == ninf || (exists j in 0..len(s.Xs) :: s.Weights[j] != 0 && max == s.Xs[j])) && ((min == inf) == (max == ninf)) && (min == inf ==> (forall j in 0..i :: s.Weights[j] == 0))
+//@   loop 3 (i) invariant (forall j in 0..i :: s.Weights[j] != 0 ==> min <= s.Xs[j] && s.Xs[j] <= max) && (min == inf || (exists j in 0..len(s.Xs) :: s.Weights[j] != 0 && min == s.Xs[j])) && (max == ninf || (exists j in 0..len(s.Xs) :: s.Weights[j] != 0 && max == s.Xs[j])) && ((min == inf) == (max == ninf)) && (min == inf ==> (forall j in 0..i :: s.Weights[j] == 0))
 //@   assigns nothing
 
 // ---------------------------------------------------------------------
@@ -488,8 +488,8 @@ package stats
 //@   ensures [recurrence] A[len(t)][ukey{n1, twoU}] == ak(t, aw, len(t), n1, twoU)
 //@   ensures [assumed-count] A[len(t)][ukey{n1, twoU}] == acnt(t, n1, twoU)
 //@   loop 1 (k) invariant (forall j in 1..k :: a[j] == acoef(t, j)) && K == len(t) && 2 <= k && k <= K + 1 && len(a) == K + 1 && fresh(a)
-//@   loop 2 (k) invariant (forall j in k+1..K, key ukey :: haskey(A[j], key) ==> inr(t, a, j, key.n1, key.twoU)) && (forall j in k+2..K+1, key ukey, key2 ukey @[haskey(A[j], key), haskey(A[j-1], key2)] :: haskey(A[j], key) && max(0, key.n1 - isumI(t, j-1)) <= key.n1 - key2.n1 && key.n1 - key2.n1 <= min(key.n1, t[j-1]) && key2.twoU == key.twoU - (key.n1 - key2.n1)*(a[j] - 2*key.n1 + (key.n1 - key2.n1)) && inr(t, a, j-1, key2.n1, key2.twoU) ==> haskey(A[j-1], key2)) && tsum == isumI(t, k+1) && K == len(t) && 1 <= k && k <= K - 1 && len(a) == K + 1 && fresh(a) && len(A) == K + 1 && fresh(A) && (forall j in k+1..K+1 :: allocated(A[j]) && fresh(A[j])) && (forall i in k+1..K+1, j in k+1..K+1 :: i != j ==> A[i] != A[j]) && haskey(A[K], ukey{n1, twoU})
-//@   loop 3 (A_kplus1) invariant (forall j in k..K, key ukey :: haskey(A[j], key) ==> inr(t, a, j, key.n1, key.twoU)) && (forall j in k+2..K+1, key ukey, key2 ukey @[haskey(A[j], key), haskey(A[j-1], key2)] :: haskey(A[j], key) && max(0, key.n1 - isumI(t, j-1)) <= key.n1 - key2.n1 && key.n1 - key2.n1 <= min(key.n1, t[j-1]) && key2.twoU == key.twoU - (key.n1 - key2.n1)*(a[j] - 2*key.n1 + (key.n1 - key2.n1)) && inr(t, a, j-1, key2.n1, key2.twoU) ==> haskey(A[j-1], key2)) && (forall key ukey, key2 ukey @[haskey(A[k+1], key), haskey(A[k], key2)] :: visited(key) && haskey(A[k+1], key) && max(0, key.n1 - isumI(t, k)) <= key.n1 - key2.n1 && key.n1 - key2.n1 <= min(key.n1, t[k]) && key2.twoU == key.twoU - (key.n1 - key2.n1)*(a[k+1] - 2*key.n1 + (key.n1 - key2.n1)) && inr(t, a, k, key2.n1, key2.twoU) ==> haskey(A[k], key2)) && tsum == isumI(t, k) && K == len(t) && 2 <= k && k <= K - 1 && len(a) == K + 1 && fresh(a) && len(A) == K + 1 && fresh(A) && (forall j in k..K+1 :: allocated(A[j]) && fresh(A[j])) && (forall i in k..K+1, j in k..K+1 :: i != j ==> A[i] != A[j]) && haskey(A[K], ukey{n1, twoU})
+//@   loop 2 (k) invariant (forall j in 1..K+1 :: a[j] == acoef(t, j)) && (forall j in k+1..K, key ukey :: haskey(A[j], key) ==> inr(t, a, j, key.n1, key.twoU)) && (forall j in k+2..K+1, key ukey, key2 ukey @[haskey(A[j], key), haskey(A[j-1], key2)] :: haskey(A[j], key) && max(0, key.n1 - isumI(t, j-1)) <= key.n1 - key2.n1 && key.n1 - key2.n1 <= min(key.n1, t[j-1]) && key2.twoU == key.twoU - (key.n1 - key2.n1)*(a[j] - 2*key.n1 + (key.n1 - key2.n1)) && inr(t, a, j-1, key2.n1, key2.twoU) ==> haskey(A[j-1], key2)) && tsum == isumI(t, k+1) && K == len(t) && 1 <= k && k <= K - 1 && len(a) == K + 1 && fresh(a) && len(A) == K + 1 && fresh(A) && (forall j in k+1..K+1 :: allocated(A[j]) && fresh(A[j])) && (forall i in k+1..K+1, j in k+1..K+1 :: i != j ==> A[i] != A[j]) && haskey(A[K], ukey{n1, twoU})
+//@   loop 3 (A_kplus1) invariant (forall j in 1..K+1 :: a[j] == acoef(t, j)) && (forall j in k..K, key ukey :: haskey(A[j], key) ==> inr(t, a, j, key.n1, key.twoU)) && (forall j in k+2..K+1, key ukey, key2 ukey @[haskey(A[j], key), haskey(A[j-1], key2)] :: haskey(A[j], key) && max(0, key.n1 - isumI(t, j-1)) <= key.n1 - key2.n1 && key.n1 - key2.n1 <= min(key.n1, t[j-1]) && key2.twoU == key.twoU - (key.n1 - key2.n1)*(a[j] - 2*key.n1 + (key.n1 - key2.n1)) && inr(t, a, j-1, key2.n1, key2.twoU) ==> haskey(A[j-1], key2)) && (forall key ukey, key2 ukey @[haskey(A[k+1], key), haskey(A[k], key2)] :: visited(key) && haskey(A[k+1], key) && max(0, key.n1 - isumI(t, k)) <= key.n1 - key2.n1 && key.n1 - key2.n1 <= min(key.n1, t[k]) && key2.twoU == key.twoU - (key.n1 - key2.n1)*(a[k+1] - 2*key.n1 + (key.n1 - key2.n1)) && inr(t, a, k, key2.n1, key2.twoU) ==> haskey(A[k], key2)) && tsum == isumI(t, k) && K == len(t) && 2 <= k && k <= K - 1 && len(a) == K + 1 && fresh(a) && len(A) == K + 1 && fresh(A) && (forall j in k..K+1 :: allocated(A[j]) && fresh(A[j])) && (forall i in k..K+1, j in k..K+1 :: i != j ==> A[i] != A[j]) && haskey(A[K], ukey{n1, twoU})
 //@   loop 4 (rk) invariant (forall j in 1..K+1 :: a[j] == acoef(t, j)) && (forall j in k..K, key ukey :: haskey(A[j], key) ==> inr(t, a, j, key.n1, key.twoU)) && (forall j in k+2..K+1, key ukey, key2 ukey @[haskey(A[j], key), haskey(A[j-1], key2)] :: haskey(A[j], key) && max(0, key.n1 - isumI(t, j-1)) <= key.n1 - key2.n1 && key.n1 - key2.n1 <= min(key.n1, t[j-1]) && key2.twoU == key.twoU - (key.n1 - key2.n1)*(a[j] - 2*key.n1 + (key.n1 - key2.n1)) && inr(t, a, j-1, key2.n1, key2.twoU) ==> haskey(A[j-1], key2)) && (forall key ukey, key2 ukey @[haskey(A[k+1], key), haskey(A[k], key2)] :: visited(key, 3) && haskey(A[k+1], key) && max(0, key.n1 - isumI(t, k)) <= key.n1 - key2.n1 && key.n1 - key2.n1 <= min(key.n1, t[k]) && key2.twoU == key.twoU - (key.n1 - key2.n1)*(a[k+1] - 2*key.n1 + (key.n1 - key2.n1)) && inr(t, a, k, key2.n1, key2.twoU) ==> haskey(A[k], key2)) && (forall key2 ukey @[haskey(A[k], key2)] :: rkLow <= A_kplus1.n1 - key2.n1 && A_kplus1.n1 - key2.n1 < rk && key2.twoU == A_kplus1.twoU - (A_kplus1.n1 - key2.n1)*(a[k+1] - 2*A_kplus1.n1 + (A_kplus1.n1 - key2.n1)) && inr(t, a, k, key2.n1, key2.twoU) ==> haskey(A[k], key2)) && tsum == isumI(t, k) && haskey(A[k+1], A_kplus1) && !visited(A_kplus1, 3) && rkLow == max(0, A_kplus1.n1 - isumI(t, k)) && rkHigh == min(A_kplus1.n1, t[k]) && rk >= rkLow && rk <= max(rkLow, rkHigh + 1) && K == len(t) && 2 <= k && k <= K - 1 && len(a) == K + 1 && fresh(a) && len(A) == K + 1 && fresh(A) && (forall j in k..K+1 :: allocated(A[j]) && fresh(A[j])) && (forall i in k..K+1, j in k..K+1 :: i != j ==> A[i] != A[j]) && haskey(A[K], ukey{n1, twoU})
 //@   loop 5 (A_2i) invariant (forall j in 1..K+1 :: a[j] == acoef(t, j)) && (forall j in 2..K, key ukey :: haskey(A[j], key) ==> inr(t, a, j, key.n1, key.twoU)) && (forall j in 3..K+1, key ukey, key2 ukey @[haskey(A[j], key), haskey(A[j-1], key2)] :: haskey(A[j], key) && max(0, key.n1 - isumI(t, j-1)) <= key.n1 - key2.n1 && key.n1 - key2.n1 <= min(key.n1, t[j-1]) && key2.twoU == key.twoU - (key.n1 - key2.n1)*(a[j] - 2*key.n1 + (key.n1 - key2.n1)) && inr(t, a, j-1, key2.n1, key2.twoU) ==> haskey(A[j-1], key2)) && (forall key ukey :: visited(key) ==> A[2][key] == base2(t, key.n1, key.twoU)) && N_2 == t[0] + t[1] && K == len(t) && len(a) == K + 1 && fresh(a) && len(A) == K + 1 && fresh(A) && (forall i in 2..K+1, j in 2..K+1 :: i != j ==> A[i] != A[j]) && (forall j in 2..K+1 :: fresh(A[j])) && haskey(A[K], ukey{n1, twoU})
 //@   loop 6 (r2) invariant (forall j in 1..K+1 :: a[j] == acoef(t, j)) && (forall j in 2..K, key ukey :: haskey(A[j], key) ==> inr(t, a, j, key.n1, key.twoU)) && (forall j in 3..K+1, key ukey, key2 ukey @[haskey(A[j], key), haskey(A[j-1], key2)] :: haskey(A[j], key) && max(0, key.n1 - isumI(t, j-1)) <= key.n1 - key2.n1 && key.n1 - key2.n1 <= min(key.n1, t[j-1]) && key2.twoU == key.twoU - (key.n1 - key2.n1)*(a[j] - 2*key.n1 + (key.n1 - key2.n1)) && inr(t, a, j-1, key2.n1, key2.twoU) ==> haskey(A[j-1], key2)) && (forall key ukey :: visited(key, 5) ==> A[2][key] == base2(t, key.n1, key.twoU)) && N_2 == t[0] + t[1] && r2Low == max(0, A_2i.n1 - t[0]) && r2High == r2hi(t, A_2i.n1, A_2i.twoU) && r2 >= r2Low && r2 <= max(r2Low, r2High + 1) && Asum == s2(t, A_2i.n1, r2 - 1) && haskey(A[2], A_2i) && !visited(A_2i, 5) && K == len(t) && len(a) == K + 1 && fresh(a) && len(A) == K + 1 && fresh(A) && (forall i in 2..K+1, j in 2..K+1 :: i != j ==> A[i] != A[j]) && (forall j in 2..K+1 :: fresh(A[j])) && haskey(A[K], ukey{n1, twoU})
